@@ -35,6 +35,7 @@ type Opt struct {
 	IniName        string
 	NoIni          bool
 	RawTag         string // if non-empty, used verbatim instead of the rendered tag (C19)
+	CallbackErr     bool  // the callback returns a plain (non-flags) error
 	ProgChoicesFrom int   // >0: choices[ProgChoicesFrom:] are appended to the flags.Option after scanning, the first ones come from tags
 	Prog           bool   // required / choices / hidden / default-mask are set on the flags.Option after scanning, not by tags
 
@@ -92,6 +93,7 @@ type PosArg struct {
 	Field string
 	Name  string // positional-arg-name ("" = field name)
 	T     TypeSpec
+	Base  int    // base tag on an integer positional (0 = none)
 	Req   string // required tag text on the field ("" none, "yes", "2", "1-3")
 	Desc  string
 	idx   int
@@ -167,6 +169,8 @@ func (l *CallLog) add(kind string, id int, args []string) {
 	copy(cp, args)
 	l.E = append(l.E, CallEntry{kind, id, cp})
 }
+
+var callbackErr error = fmt.Errorf("callback failed: 100%% plain error")
 
 type sentinelErr struct{ id int }
 
@@ -303,6 +307,9 @@ func (a *PosArg) Tag() string {
 	}
 	if a.Req != "" {
 		tagKV(&sb, "required", a.Req)
+	}
+	if a.Base != 0 {
+		tagKV(&sb, "base", strconv.Itoa(a.Base))
 	}
 	if a.Desc != "" {
 		tagKV(&sb, "description", a.Desc)
@@ -481,7 +488,10 @@ func makeCallback(o *Opt, log *CallLog) reflect.Value {
 			as = append(as, Canon(a))
 		}
 		log.add("callback", id, as)
-		if o.T.W == WFunc1Err {
+		if o.T.W == WFunc1Err || o.T.W == WFunc0Err {
+			if o.CallbackErr {
+				return []reflect.Value{reflect.ValueOf(&callbackErr).Elem()}
+			}
 			return []reflect.Value{reflect.Zero(tError)}
 		}
 		return nil
